@@ -219,8 +219,65 @@ def engine_selftest(op, s):
     return realize(r) == want
 
 
+# ------------------------------------------------------------------ the table: realistic prose x every kind of value x every phrase
+T_PROSE = ["the learning rate", "dataset name, e.g. mnist", "number of epochs (at least 1)", "scale factor 0.5 applied twice", "see `foo` for details",
+           "first. second", "ends with period.", "ends with comma,", "a: b", "size in [0, 1]", "x", "Name of the thing - hyphenated", "value; see below"]
+T_VALUES = [("5", 5, (None, "int", "Optional[int]")), ("-5", -5, (None, "int")), ("0", 0, (None, "int")), ("12", 12, (None, "int")),
+            ("100", 100, (None, "int")), ("5", 5.0, ("float",)), ("0.5", 0.5, (None, "float")), ("-0.5", -0.5, (None, "float")),
+            ("1e-07", 1e-07, (None, "float")), ("3.0", 3.0, (None, "float")), ("10.25", 10.25, (None, "float")),
+            ("True", True, (None, "bool")), ("False", False, (None, "bool")), ("None", None, (None, "Optional[int]", "int", "str")),
+            ('"mnist"', "mnist", ("str", "Optional[str]")), ("'mnist'", "mnist", ("str",)), ('"a b"', "a b", ("str",)), ("mnist", "mnist", (None,)),
+            ("```[]```", "[]", (None, "List[int]")), ("```(np.empty(0), np.empty(0))```", "(np.empty(0), np.empty(0))", (None,)),
+            ("```{'a': 1}```", "{'a': 1}", (None,)), ("(1, 2)", "(1, 2)", (None,)), ("[1, 2]", "[1, 2]", (None,))]
+T_TAILS = ("", ".", ". ")
+T_CELLS = [(v, ph) for v in range(len(T_VALUES)) for ph in range(len(PHRASES))]
+
+
+def _t_same(got, want):
+    from doctrans.ast_utils import NoneStr
+
+    if want is None:
+        return got is None or (isinstance(got, str) and got in ("None", NoneStr))
+    if isinstance(want, str):
+        return isinstance(got, str) and got.strip("`") == want
+    return type(got) is type(want) and got == want
+
+
+def table_cell(c, active):
+    """cell c = (value, phrase): for every prose of the pool, every declared type the value admits, every tail and both removal modes,
+    `<prose>. <phrase><value><tail>` gives the value back with its type, the text unchanged (removal off) or the prose alone (on)"""
+    from lib.chutil import realize, untraced
+
+    c = realize(c)
+    with untraced():
+        vi, pi = T_CELLS[c]
+        text, want, typs = T_VALUES[vi]
+        bracketed = text[-1] in ")]}`"
+        for p in T_PROSE:
+            for typ in typs:
+                for tail in T_TAILS:
+                    line = _norm(p) + " " + PHRASES[pi] + text + tail
+                    for rm in (False, True):
+                        _, r = interpolate_defaults(("a", {"doc": line, **({"typ": typ} if typ else {})}), emit_default_doc=not rm)
+                        got = r.get("default")
+                        if not _t_same(got, want):
+                            # KF-C17-bracket-tail-dot: exactly the value text (back-ticks included) followed by the full stop
+                            if not ("KF-C17-bracket-tail-dot" in active and bracketed and tail[:1] == "." and isinstance(got, str)
+                                    and got == text.lstrip("`") + "."):
+                                return False
+                        if r["doc"] != (_norm(p) if rm else line):
+                            return False
+        return True
+
+
 def obligations(tier, seed):
     obs = []
+    obs.append(Ob(name="table", params=[("c", "int")], pre=["0 <= c < %d" % len(T_CELLS)], body="H.table_cell(c, {ACTIVE})",
+                  witness=(0,), kind="F",
+                  bounds="%d cells (value x phrase, table-indexed): %d values of every kind (ints, floats, bools, None, quoted / bare strs, back-tick "
+                  "and bare bracketed expressions) x the 7 phrase forms; inside a cell, concretely: %d realistic prose texts x every declared type "
+                  "the value admits x tails %r x removal on/off" % (len(T_CELLS), len(T_VALUES), len(T_PROSE), T_TAILS),
+                  timeout=300, path_timeout=100, funcs=FUNCS))
     for op, nm_ in enumerate(("casefold", "lower", "upper", "isspace", "isdigit", "isdecimal", "splitlines")):
         obs.append(Ob(name="engine_selftest_%s" % nm_, params=[("s", "str")], pre=["len(s) <= 2", "all(c in H.SELFTEST_ALPHA for c in s)"],
                       body="H.engine_selftest(%d, s)" % op, witness=("Z ",),
